@@ -1650,6 +1650,64 @@ GEN = {"mask": _retry(gen_mask_case), "geom": _retry(gen_geom_case), "bound": _r
        "scale": _retry(gen_scale_case), "history": _retry(gen_history_case)}
 
 
+def large_index_cases(ctx, n_cases):
+    """many vertices under a narrow integer triangle list (oracle only): an index product computed in the triangle
+    list's own dtype wraps around (seeded C17-4: edge key lo * n_points + hi in uint32 / int32).  Small editions of
+    the same situation: ~200 vertices under uint8, ~300 under int16."""
+    import numpy as np
+    from menpo.shape import TriMesh
+    rng = ctx.rng
+    site = "C17/large-index"
+    plans = [("uint8", 200, 255), ("int16", 250, 400), ("uint16", 300, 700), ("int32", 46500, 52000), ("uint32", 65600, 72000)]
+    for c in range(n_cases):
+        dt, lo, hi = plans[c % len(plans)]
+        n = rng.randint(lo, hi)
+        nt = rng.randint(40, 400)
+        # triangles among the high indices (where products are largest) plus a few anywhere
+        top = max(3, min(n, 600))
+        tris = set()
+        while len(tris) < nt:
+            base = n - top if rng.random() < 0.8 else 0
+            t = tuple(base + v for v in rng.sample(range(top if base else n), 3))
+            tris.add(t)
+        tl = np.array(sorted(tris), dtype=dt)
+        pts = np.zeros((n, 2))
+        pts[:, 0] = np.arange(n) % 257
+        pts[:, 1] = np.arange(n) // 257 + (np.arange(n) % 7) / 8.0
+        rp = {"family": "large-index", "n_points": n, "trilist_dtype": dt, "n_tris": int(len(tl)), "trilist_head": tl[:5].tolist()}
+        ctx.case(("large-index", dt, n, tl.tobytes()), nontrivial=True, sample=rp if c == 0 else None)
+        ctx.count("large-index:" + dt)
+        try:
+            mesh = TriMesh(pts, trilist=tl)
+            t64 = tl.astype(np.int64)
+            sides = np.vstack([t64[:, [0, 1]], t64[:, [1, 2]], t64[:, [2, 0]]])
+            und = np.sort(sides, axis=1)
+            key = und[:, 0] * (n + 1) + und[:, 1]
+            uk, cnt = np.unique(key, return_counts=True)
+            want = {(int(k // (n + 1)), int(k % (n + 1))) for k in uk}
+            got = [tuple(sorted((int(a), int(b)))) for a, b in mesh.unique_edge_indices()]
+            ctx.check(len(got) == len(set(got)) and set(got) == want, site, "unique-edges",
+                      "unique_edge_indices lists %d edges (%d distinct); the mesh has %d undirected edges" % (
+                          len(got), len(set(got)), len(want)), rp)
+            mult = dict(zip(uk.tolist(), cnt.tolist()))
+            tri_keys = key.reshape(3, -1).T
+            bwant = [any(mult[int(k)] == 1 for k in row) for row in tri_keys]
+            bgot = [bool(x) for x in mesh.boundary_tri_index()]
+            ctx.check(bgot == bwant, site, "boundary", "boundary_tri_index differs from 'has a side used by one triangle only'", rp)
+            # masking away the low vertices keeps the (renumbered) high triangles whole
+            keep = np.zeros(n, dtype=bool)
+            keep[n - top:] = True
+            sub = mesh.from_mask(keep)
+            ok_t = t64[(t64 >= n - top).all(axis=1)]
+            # vertices left without a triangle are dropped too, so compare through the coordinates (unique per vertex)
+            want_c = sorted(tuple(map(tuple, pts[t].tolist())) for t in ok_t)
+            got_c = sorted(tuple(map(tuple, sub.points[np.asarray(t).astype(np.int64)].tolist())) for t in sub.trilist)
+            ctx.check(got_c == want_c, site, "mask-renumbering",
+                      "from_mask of the top %d vertices does not keep exactly the triangles among them (as coordinate triples)" % top, rp)
+        except Exception as e:     # noqa: BLE001 - an exception out of menpo is an oracle failure
+            ctx.fail(site, "raises:" + type(e).__name__, "%s: %s" % (type(e).__name__, e), rp)
+
+
 def search(ctx):
     """directed search after a broken tie: many more cases of every family through the oracle only,
     starting with the neighbours (same mesh, other masks) of the mismatching cases"""
@@ -1665,6 +1723,9 @@ def search(ctx):
                 ctx.searched += 1
                 if ctx.failures:
                     return True
+    large_index_cases(ctx, 40)
+    if ctx.failures:
+        return True
     for k in range(ctx.n(4000, 12000)):
         fam = ("mask", "geom", "bound", "history", "mask", "geom", "bound", "scale")[k % 8]
         run_family(ctx, fam, GEN[fam](rng))
@@ -1755,6 +1816,7 @@ def run(ctx):
             if fam == "history":
                 sample = dict(sample, steps=case["steps"], mask=None)
             ctx.case(sig, nontrivial=bool(nt), sample=sample if k < {"mask": 2}.get(fam, 1) else None)
+    large_index_cases(ctx, ctx.n(10, 120))
     model = common.run_driver(PROP, lines)
     for cid, (case, obs) in pending.items():
         fam = case["family"]
